@@ -204,3 +204,10 @@ package relationtuple
 //@   modifies db, wfailed
 //@   callsite (*Mapper).FromTuple requires[C05] tx-context: $arg1 == ctx
 //@   ensures[C05] error-returned: !old(wfailed) && result == nil ==> !wfailed
+
+// ---- C18: relation query -> protobuf -> relation query (gRPC list/delete decode path)
+//@ func verifRoundTripProtoQuery
+//@   props C18
+//@   opt inline-all
+//@   requires x != nil && !(x.SubjectID != nil && x.SubjectSet != nil)
+//@   ensures[C18] proto-query-roundtrip: result != nil && sameid(result.Namespace, x.Namespace) && sameid(result.Object, x.Object) && sameid(result.Relation, x.Relation) && sameid(result.SubjectID, x.SubjectID) && sameset(result.SubjectSet, x.SubjectSet)
